@@ -307,7 +307,9 @@ def replay(prop, path):
     with open(path) as f:
         fail = json.load(f)
     sc = [s for s in mod.SUBCHECKS if s.name == fail["subcheck"]][0]
-    rec = Recorder(prop, sc.name, {})
+    # listed known findings stay suppressed in replay mode too (a replay of a *fixed*
+    # defect must not alarm because the same case also shows a recorded, unfixed one)
+    rec = Recorder(prop, sc.name, load_known(prop))
     rec.begin(fail["case"])
     try:
         case = mod.revive(fail["case"]) if hasattr(mod, "revive") else fail["case"]
